@@ -1135,14 +1135,19 @@ spdiag(PyTypeObject *type, PyObject *args, PyObject *kwds)
     if (!ret) return NULL;
     SP_COL(ret)[0] = 0;
 
-    for (k=0; k<SP_NNZ(diag); k++) {
+    int_t j, pos;
+    for (j=0; j<SP_NCOLS(diag); j++) {
+      for (k=SP_COL(diag)[j]; k<SP_COL(diag)[j+1]; k++) {
 
-      SP_COL(ret)[SP_ROW(diag)[k]+1] = 1;
-      SP_ROW(ret)[k] = SP_ROW(diag)[k];
-      if (SP_ID(diag) == DOUBLE)
-        SP_VALD(ret)[k] = SP_VALD(diag)[k];
-      else
-        SP_VALZ(ret)[k] = SP_VALZ(diag)[k];
+        /* position of the entry in the (row or column) vector */
+        pos = SP_ROW(diag)[k] + j*SP_NROWS(diag);
+        SP_COL(ret)[pos+1] = 1;
+        SP_ROW(ret)[k] = pos;
+        if (SP_ID(diag) == DOUBLE)
+          SP_VALD(ret)[k] = SP_VALD(diag)[k];
+        else
+          SP_VALZ(ret)[k] = SP_VALZ(diag)[k];
+      }
     }
 
     for (k=0; k<n; k++) SP_COL(ret)[k+1] += SP_COL(ret)[k];
